@@ -239,12 +239,13 @@ inductive Cell (F : Type) where
   | pl (E0 γ : F)
   | cutoff (E0 γ Ecut : F)
   | logpar (E0 α β : F)
+  /-- `FunctionEnergyFluxProfile`: an arbitrary callable of the energy (no parameters) -/
+  | func (f : F → F)
   | unityT (w : Win F)
   | box (w : Win F)
   | gauss (g : Gauss F)
   /-- `FactorizedFluxModel`: `_Phi0` and references to the spatial, energy and time profile -/
   | ffm (phi0 : F) (refs : List Nat)
-deriving Repr
 
 abbrev Heap (F : Type) := List (Cell F)
 abbrev PDict (F : Type) := List (PName × F)
@@ -256,6 +257,7 @@ def Cell.nameStrings (pn : ParamNames) : Cell F → List String
   | .pl .. => pn.pl
   | .cutoff .. => pn.cutoff
   | .logpar .. => pn.logpar
+  | .func .. => []
   | .unityT .. => pn.unityT
   | .box .. => pn.box
   | .gauss .. => pn.gauss
@@ -514,6 +516,7 @@ def Cell.evalE : Cell F → F → Option F
   | .pl E0 γ, E => some (plCall E0 γ E)
   | .cutoff E0 γ Ec, E => some (cutoffCall E0 γ Ec E)
   | .logpar E0 α β, E => some (logparCall E0 α β E)
+  | .func f, E => some (f E)
   | _, _ => none
 
 /-- time profile value -/
